@@ -241,6 +241,10 @@ def obs_core(g, pool):
             t += [999]
         if not _same_outcome(lambda: sorted(x.identifier for x in g.get_neighbor_nodes(n)), lambda: sorted(g.get_neighbors(n))):
             t += [999]
+        # item access and list-valued get_nodes are wrappers of get_node
+        if not _same_outcome(lambda: g[n].identifier, lambda: g.get_node(n).identifier) or \
+                (g.node_exists(n) and [x.identifier for x in g.get_nodes([n])] != [n]):
+            t += [999]
     t += C.tk_names([n.identifier for n in g.get_inputs()])
     t += C.tk_names([n.identifier for n in g.get_outputs()])
     for getter in TYPE_GETTERS:
@@ -254,6 +258,18 @@ def obs_core(g, pool):
             if g.edge_exists(s, d) != g.is_edge_by_pair((s, d)) or not _same_outcome(
                     lambda: g.get_edge_by_pair((s, d)).get_edge_type(), lambda: g.get_edge(s, d).get_edge_type()):
                 t += [999]
+            if not _same_outcome(lambda: g[(s, d)].get_edge_type(), lambda: g.get_edge(s, d).get_edge_type()):
+                t += [999]
+            # the typed form of get_edge answers exactly when the typed existence check does
+            for x in C.ETYPES[:3]:
+                try:
+                    ok = g.get_edge(s, d, edge_type=ET[x]).get_edge_type() == ET[x]
+                except Exception:  # noqa: BLE001
+                    ok = False
+                if ok != g.edge_exists(s, d, edge_type=ET[x]):
+                    t += [999]
+    if dict(g) != g.to_dict():
+        t += [999]
     return t
 
 
